@@ -51,17 +51,17 @@ var props = map[string]*propCfg{
 		DesignRef:   "DESIGN.md §4 C03",
 	},
 	"C05": {
-		Rule:        "Cases: perfect squares s^2 (s of 1..80 digits, some to 1 500) and s^2+-1, at receiver precision digits(s)+{-3,-1,0,1,2,20}; roots that are exactly a rounding midpoint ((m+1/2)^2) or lie a few units of a far lower place beside a midpoint or beside a representable value; odd and even exponents (incl. negative odd), exponents at both ends of the int32 range; random x with more / as many / fewer digits than the receiver; Sqrt(+0), Sqrt(-0), Sqrt(+Inf) for every mode; 25% with the receiver being the operand. Oracle: integer square root in big.Int + sticky, rounded once (model #1) and the definition check s^2 vs x on candidate neighbours (model #2). After the call the receiver's precision and mode must be what they were and a distinct operand must be bit-identical. Non-trivial = the exact root is not representable at the receiver's precision; distinct = hashes of (x, precision, mode, sharing).",
+		Rule:        "Cases: perfect squares s^2 (s of 1..80 digits, some to 1 500) and s^2+-1, at receiver precision digits(s)+{-3,-1,0,1,2,20}; roots that are exactly a rounding midpoint ((m+1/2)^2) or lie a few units of a far lower place beside a midpoint or beside a representable value; x a few units of its last place below / above a power of ten (the root crosses a decade) at small precisions; odd and even exponents (incl. negative odd), exponents at both ends of the int32 range; random x with more / as many / fewer digits than the receiver; Sqrt(+0), Sqrt(-0), Sqrt(+Inf) for every mode; 25% with the receiver being the operand. Oracle: integer square root in big.Int + sticky, rounded once (model #1) and the definition check s^2 vs x on candidate neighbours (model #2). After the call the receiver's precision and mode must be what they were and a distinct operand must be bit-identical. Non-trivial = the exact root is not representable at the receiver's precision; distinct = hashes of (x, precision, mode, sharing).",
 		Assumptions: []string{"operand lengths are capped at 700 digits quick / 3 000 thorough (Newton iteration cost)", "Acc() after Sqrt is not part of the statement and is not judged"},
-		Floors:      []floor{{"Sqrt/perfect-square", 3000}, {"Sqrt/root-is-tie", 3000}, {"Sqrt/root-just-above-tie", 2000}, {"Sqrt/root-just-below-tie", 2000}, {"Sqrt/root-just-above-representable", 2000}, {"Sqrt/root-just-below-representable", 2000}, {"Sqrt/special", 50}, {"mode/ToNegativeInf", 5000}, {"mode/AwayFromZero", 5000}},
+		Floors:      []floor{{"Sqrt/perfect-square", 3000}, {"Sqrt/root-is-tie", 3000}, {"Sqrt/root-just-above-tie", 2000}, {"Sqrt/root-just-below-tie", 2000}, {"Sqrt/root-just-above-representable", 2000}, {"Sqrt/root-just-below-representable", 2000}, {"Sqrt/special", 50}, {"Sqrt/just-below-power-of-ten", 3000}, {"mode/ToNegativeInf", 5000}, {"mode/AwayFromZero", 5000}},
 		LevelText:   "Runtime monitoring of Sqrt against the integer square root with cases constructed at the rounding boundaries (exact ties, perfect squares, neighbours one unit of a far lower place away), where an approximate Newton result is wrong.",
 		Technique:   "runtime oracle monitoring: big.Int integer square root reference + definition checker, boundary-constructed inputs, attribute snapshots",
 		DesignRef:   "DESIGN.md §4 C05",
 	},
 	"C04": {
-		Rule:        "Part 1 (exhaustive): the class table {-Inf,-fin,-0,+0,+fin,+Inf}^k is enumerated completely: 36 cells x {Add,Sub,Mul,Quo} x 6 modes x 4 magnitude variants (1-word, 3-word, 120-word finite operands; equal magnitudes so that exact zero sums occur) x {fresh receiver, z=x}; 216 FMA cells x 6 modes x 4 variants over the 15 sharing patterns; 6 Sqrt cells x 6 modes x 3 sizes x {fresh, z=x} = 9 288 cells. Expected class and sign come from the float64 hardware (x+y, x-y, x*y, x/y, math.FMA, math.Sqrt on class representatives; NaN <=> must panic with ErrNaN) with the -0-under-ToNegativeInf rule applied on top, cross-checked against the modelled rules (disagreement = inconclusive); after an ErrNaN panic the receiver must pass the representation-invariant walker. Part 2 (panic hunt): 38 groups of public operations (arithmetic incl. 100..220-word divisors with adversarial words and exact recursive divisions, Karatsuba-sized products and squares, Sqrt, all setters incl. int64-extreme exponents, raw SetBitsExp incl. precision-0 receivers, all getters and conversions, every Text/fmt format, Parse/SetString/ParseDecimal/UnmarshalText/Scan/JSON on literals and token soup in every legal base, Gob of valid values) called on valid arguments under recover(): any panic value that is not ErrNaN, an ErrNaN on a valid call, or a missing ErrNaN on an invalid one is a violation. All table cells are non-trivial; hunt cases count as distinct by construction (fresh PRNG draw per case).",
+		Rule:        "Part 1 (exhaustive): the class table {-Inf,-fin,-0,+0,+fin,+Inf}^k is enumerated completely: 36 cells x {Add,Sub,Mul,Quo} x 6 modes x 4 magnitude variants (1-word, 3-word, 120-word finite operands; equal magnitudes so that exact zero sums occur) x {distinct variables, z=x}; 216 FMA cells x 6 modes x 4 variants over the 15 sharing patterns; 6 Sqrt cells x 6 modes x 3 sizes x {distinct, z=x}; all of it x 3 receiver states (fresh; holding the inexact result of an earlier division, i.e. a stale Below accuracy; holding a negative zero that came out of inexact arithmetic) = 27 864 cells. Expected class and sign come from the float64 hardware (x+y, x-y, x*y, x/y, math.FMA, math.Sqrt on class representatives; NaN <=> must panic with ErrNaN) with the -0-under-ToNegativeInf rule applied on top, cross-checked against the modelled rules (disagreement = inconclusive); after an ErrNaN panic the receiver must pass the representation-invariant walker. Part 2 (panic hunt): 38 groups of public operations (arithmetic incl. 100..220-word divisors with adversarial words and exact recursive divisions, Karatsuba-sized products and squares, Sqrt, all setters incl. int64-extreme exponents, raw SetBitsExp incl. precision-0 receivers, all getters and conversions, every Text/fmt format, Parse/SetString/ParseDecimal/UnmarshalText/Scan/JSON on literals and token soup in every legal base, Gob of valid values) called on valid arguments under recover(): any panic value that is not ErrNaN, an ErrNaN on a valid call, or a missing ErrNaN on an invalid one is a violation. All table cells are non-trivial; hunt cases count as distinct by construction (fresh PRNG draw per case).",
 		Assumptions: []string{"valid arguments = non-nil pointers, legal bases, words below the base, Int/Rat/Text('f') only at |exponent| <= 3 000 and Float at <= 20 000 (they materialise 10^|exp|), addend gaps capped", "a precision-0 receiver is a valid receiver for every setter including SetBitsExp"},
-		Floors:      []floor{{"table/", 9288}, {"invalid_operation_cells", 500}, {"hunt/Quo", 2000}, {"hunt/Parse", 2000}, {"hunt/SetBitsExp", 500}, {"hunt/SetFloat", 500}, {"hunt_ErrNaN_panics", 50}},
+		Floors:      []floor{{"table/", 27864}, {"receiver-state/1", 9000}, {"receiver-state/4", 9000}, {"invalid_operation_cells", 500}, {"hunt/Quo", 2000}, {"hunt/Parse", 2000}, {"hunt/SetBitsExp", 500}, {"hunt/SetFloat", 500}, {"hunt_ErrNaN_panics", 50}},
 		LevelText:   "Exhaustive enumeration of the finite class table against the float64 hardware plus a recover()-instrumented hunt over every public entry point with operand sizes that reach the deep multi-word paths.",
 		Technique:   "runtime monitoring: exhaustive class table vs float64 hardware reference; panic classifier (recover) over hostile workloads",
 		DesignRef:   "DESIGN.md §4 C04",
@@ -146,9 +146,9 @@ var props = map[string]*propCfg{
 		DesignRef:   "DESIGN.md §4 C16",
 	},
 	"C12": {
-		Rule:        "Decimal literals (35%): generated from a digit string (1..6 000 digits, rounding-aimed or patterned, leading/trailing zeros, all zeros), a radix point anywhere, an exponent to both ends of the int32 range, rendered plainly and with '_' separators, through Parse(s,10), Parse(s,0), SetString, ParseDecimal, UnmarshalText and fmt.Sscan; receiver precision 0 (-> 34), 1..45 or digit count +-3, six modes, dirty receivers: value and accuracy against the exact literal value by both oracle models, reported base, resulting precision and mode. Binary literals (20%): 0b/0o/0x mantissas with optional fraction and optional p exponent, decimal mantissas with a p exponent: exact value m x 2^k; stored exactly when its decimal expansion fits the precision, otherwise within one unit of the correctly rounded value; detected base. Language (45%): token soup, mutated and truncated literals, literals with trailing garbage, x bases {0,2,8,10,16}: no entry point may panic; a failed call returns a nil *Decimal; an accepted one leaves a canonical value; acceptance and detected base must equal big.Float.Parse for literals whose exponent magnitude is <= 10^4 (beyond that math/big's binary exponent range differs). Every case is non-trivial.",
+		Rule:        "Decimal literals (35%): generated from a digit string (1..6 000 digits, rounding-aimed or patterned, leading/trailing zeros, all zeros), a radix point anywhere, an exponent to both ends of the int32 range, rendered plainly and with '_' separators, through Parse(s,10), Parse(s,0), SetString, ParseDecimal, UnmarshalText and fmt.Sscan; receiver precision 0 (-> 34), 1..45 or digit count +-3, six modes, dirty receivers: value and accuracy against the exact literal value by both oracle models, reported base, resulting precision and mode. Binary literals (20%): 0b/0o/0x mantissas with optional fraction and optional p exponent, decimal mantissas with a p exponent: exact value m x 2^k; stored exactly when its decimal expansion fits the precision, otherwise within one unit of the correctly rounded value; detected base. Exponent range (10%): non-zero and zero mantissas with exponents within 400 (sometimes 200 000) of +-2^31, 2^32, 2^63, 2^64, k*2^64, 2^65 and 11..30-digit exponents, with sign and leading-zero variants: accepted exactly when the exponent text fits an int64 and the leading digit's exponent (computed in big.Int) lies in [MinExp, MaxExp], then stored exactly-then-rounded; rejected with a nil result otherwise. Language (40%): token soup, mutated and truncated literals, literals with trailing garbage, x bases {0,2,8,10,16}: no entry point may panic; a failed call returns a nil *Decimal; an accepted one leaves a canonical value; acceptance and detected base must equal big.Float.Parse for literals whose exponent magnitude is <= 10^4 (beyond that math/big's binary exponent range differs). Every case is non-trivial.",
 		Assumptions: []string{"Scan (fmt) accepts a valid prefix by design: its acceptance is not compared with Parse's", "language comparison is limited to exponent magnitudes <= 10^4; range rejections beyond that are covered by the decimal-literal cases at both range ends"},
-		Floors:      []floor{{"decimal/", 60000}, {"binary/", 30000}, {"binary_exactly_representable", 5000}, {"language/accepted", 10000}, {"language/rejected", 20000}, {"language_compared_with_math_big", 40000}, {"entry_point_calls", 150000}},
+		Floors:      []floor{{"decimal/", 60000}, {"binary/", 30000}, {"binary_exactly_representable", 5000}, {"range/accepted", 1500}, {"range/rejected", 15000}, {"language/accepted", 10000}, {"language/rejected", 20000}, {"language_compared_with_math_big", 40000}, {"entry_point_calls", 150000}},
 		LevelText:   "Runtime monitoring of the parser against exact literal values and against math/big's parser as a reference for the accepted language; grammar-aware fuzzing for totality.",
 		Technique:   "runtime oracle monitoring: exact literal reference + differential vs math/big Float.Parse; recover()-instrumented fuzzing",
 		DesignRef:   "DESIGN.md §4 C12",
